@@ -350,7 +350,12 @@ func counts(asked map[string]int, c *world.DCluster, P int) []int {
 // canary: the instrumented /repo files must keep per-loop (go <= 1.21) loop variables; this file
 // is compiled as go 1.23, so the check is done on an instrumented repo function instead: the
 // harness asserts the behaviour through world.LoopVarCanary (see world/canary.go).
+const c14Keys = `^partition-contents-lost-by-catalogue-restore`
+
 func main() {
+	if len(os.Args) > 2 && os.Args[1] == "--replay" && ev.PartOf(os.Args[2]) == "C14" {
+		ev.ReplayPart("C17", os.Getenv("VERIF_BIN_C14"), c14Keys, os.Args[2], "VERIF_PART_MODE=catlog", "VERIF_TUNABLE_snapshotOffset=0")
+	}
 	if len(os.Args) > 1 && os.Args[1] == "--race-pass" {
 		racePass()
 		return
@@ -385,7 +390,13 @@ func main() {
 	}
 	scs = append(scs, buildGet(false), buildGet(true))
 	explore.Main("C17", scs, explore.Plan{QuickBound: 3, ThoroughBound: 4, QuickBudget: 100 * time.Second, ThoroughBudget: 15 * time.Minute, Shards: 4,
-		Before: func(run *ev.Run) ev.Coverage { return racepass.Run(run, os.Getenv("VERIF_C17_RACE")) }},
+		Before: func(run *ev.Run) ev.Coverage {
+			// a partition's size is what the node's partition object holds: a node that installs a catalogue snapshot must
+			// not swap that object for an empty one (the size would silently drop to zero) - C14's catalogue-log part on
+			// a used restoring node, counted here for that clause
+			run.RunPart("catalogue-restore-C14", os.Getenv("VERIF_BIN_C14"), c14Keys, "VERIF_PART_MODE=catlog", "VERIF_PART_SCENARIOS=^$", "VERIF_TUNABLE_snapshotOffset=0")
+			return racepass.Run(run, os.Getenv("VERIF_C17_RACE"))
+		}},
 		"model_checking", []string{
 			"remote lookups are synchronous in-memory invocations of the target node's real DataManager handler",
 			"partition sizes 1,2,4 items (unique subset sums); contents preloaded into every replica",
